@@ -922,6 +922,7 @@ static void exec_vector(const plan_t *p) { exec_kind(p, vector_pass); }
 static void gen_alloc_knobs(plan_t *p, rng_t *r)
 {
     plan_knob(p, "alloc.fill", rng_range(r, 0, 4));
+    plan_knob(p, "alloc.zero", rng_chance(r, 1, 4)); plan_knob(p, "alloc.realloc0", rng_chance(r, 1, 4));      /* the two readings ISO C allows for a request of no bytes */
     plan_knob(p, "alloc.realloc", rng_chance(r, 1, 2) ? REALLOC_MOVE : rng_range(r, 1, 2));
     plan_knob(p, "alloc.reuse", rng_range(r, 0, 2));
     { static const int paints[] = { 0x00, 0xA5, 0xFF, 0x5A }; plan_knob(p, "stack.paint", paints[rng_below(r, 4)]); }
